@@ -22,6 +22,7 @@ from .common import (
     MAGIC_NOWIKI_CHAR,
     MAGIC_RE_PATTERN,
     MAGIC_SQUOTE_CHAR,
+    URL_STARTS,
     nowiki_quote,
 )
 from .parserfns import PARSER_FUNCTIONS
@@ -937,6 +938,13 @@ def pop_until_nth_list(ctx: "Wtp", list_token: str) -> None:
         _parser_pop(ctx, True)
 
 
+# The schemes of URL_STARTS other than http(s) are not URL tokens of their own:
+# an external link [ftp://...] arrives as the tokens "ftp", ":", "//..."
+URL_SCHEME_TOKENS = frozenset(
+    x[: x.index(":")] for x in URL_STARTS if ":" in x
+)
+
+
 def text_fn(ctx: "Wtp", token: str) -> None:
     """Inserts the token as raw text into the parse tree."""
     close_begline_lists(ctx)
@@ -953,7 +961,10 @@ def text_fn(ctx: "Wtp", token: str) -> None:
     # be links if the content looks like a URL."""
     if node.kind == NodeKind.URL:
         if not node.largs and not node.children:
-            if not re.match(r"(https?:|mailto:|//)", token):
+            if not (
+                re.match(r"(https?:|mailto:|//)", token)
+                or token in URL_SCHEME_TOKENS
+            ):
                 # It does not look like a URL
                 ctx.parser_stack.pop()
                 node2 = ctx.parser_stack[-1]
